@@ -19,6 +19,10 @@ void require(bool ok, const char* what);  // harness precondition; failure = mac
 void race_scope(const void* p, size_t n);  // plain accesses to these bytes are HB-race checked
 void race_scope_end(const void* p, size_t n);
 void background(const void* p, size_t n);  // atomics on these bytes are not preemption points
+// Plain (non-atomic) accesses to these bytes become scheduling points, as if they were relaxed atomics. For flags the code
+// under test reads and writes without synchronisation on purpose (a benign race backed by a CAS elsewhere): without this
+// the load and the store of a check-then-set on such a flag can never be separated by the explorer.
+void interleave_plain(const void* p, size_t n);
 void expect_progress(bool yes);  // deadlock/livelock is a property violation (default true)
 
 // ---- time ------------------------------------------------------------------
